@@ -22,7 +22,7 @@ D_COUNTER = "fresh"
 FAULTS = ["assert", "div", "idx"]
 D_FAULT = "div"
 
-LEAF_KINDS = ("plain", "call", "break", "continue", "return", "fault")
+LEAF_KINDS = ("plain", "call", "break", "continue", "return", "fault", "store")
 
 
 def leaves(in_loop, simple=False):
@@ -30,7 +30,7 @@ def leaves(in_loop, simple=False):
     if in_loop:
         out += [("break",), ("continue",)]
     if not simple:
-        out += [("fault", D_FAULT), ("call",)]
+        out += [("fault", D_FAULT), ("call",), ("store",)]
     return out
 
 
@@ -186,6 +186,11 @@ def stmts(ctx, s, counters, K, depth, can_return=True):
         return [("assign", "acc", ("bin", "+", var("acc"), ("int", 1)), None, ())]
     if k == "call":
         return [("assign", "acc", ("call", var("g"), [var(K)]), None, ())]
+    if k == "store":
+        # a store through a path (list element) with a simple value: value parked in a temporary of the current block
+        return [("setindex", var("lst"), ("int", 0), var(K)), ("setfield", var("box"), "v", var(K)),
+                ("print", ("bin", "+", ("bin", "+", ("str", "st "), ("index", var("lst"), ("int", 0))),
+                           ("bin", "+", ("str", " "), ("field", var("box"), "v"))))]
     if k == "break":
         return [("break",)]
     if k == "continue":
@@ -259,6 +264,8 @@ HELPER_G = ("assign", "g", ("fn", [("x", "int")], "int",
                             [("print", ("bin", "+", ("str", "g "), ("var", "x"))),
                              ("return", ("bin", "+", ("var", "x"), ("int", 1)))]), None, ())
 
+BOX = ("class", "Bx", [("v", "int")], ([("v", "int")], [("setfield", ("var", "self"), "v", ("var", "v"))]), [])
+
 COLL = ["c0", "c1", "c2", "c3", "c4", "c5"]
 
 
@@ -266,7 +273,8 @@ def function_program(shape, variant="fn"):
     """-> AST of a whole program embedding the shape.
     variant: 'fn' (called with p = 0, 1, 2), 'module' (module level, p = 1), 'rec' (one level of recursion)."""
     ctx = Ctx()
-    pre = [("assign", "lst", ("list", [("int", 10), ("int", 20)]), "[int...]", ()),
+    pre = [("assign", "box", ("new", "Bx", [("int", 5)]), None, ()),
+           ("assign", "lst", ("list", [("int", 10), ("int", 20)]), "[int...]", ()),
            ("assign", "acc", ("int", 0), None, ()), ("assign", "st", ("int", 1), None, ())]
     pre += [("assign", c, ("int", 7), None, ()) for c in COLL]
     counters0 = ["p", "acc"]
@@ -274,7 +282,7 @@ def function_program(shape, variant="fn"):
         body = block(ctx, shape, counters0, "p", 0, can_return=False)
         tail = [("print", ("bin", "+", ("bin", "+", ("str", "end "), var("acc")),
                            ("bin", "+", ("str", " "), var("c0"))))]
-        return [HELPER_G, ("assign", "p", ("int", 1), None, ())] + pre + body + tail
+        return [BOX, HELPER_G, ("assign", "p", ("int", 1), None, ())] + pre + body + tail
     body = pre + block(ctx, shape, counters0, "p", 0)
     tail = [("print", ("bin", "+", ("bin", "+", ("bin", "+", ("str", "end "), var("acc")), ("str", " ")),
                        ("bin", "+", ("bin", "+", var("c0"), ("str", " ")), var("c1")))),
@@ -285,7 +293,7 @@ def function_program(shape, variant="fn"):
                 ("print", ("bin", "+", ("str", "r "), var("r")))], None)
         f = ("assign", "f", ("fn", [("p", "int"), ("d", "int")], "int", [rec] + body + tail), None, ())
         calls = [("print", ("call", var("f"), [("int", pv), ("int", 1)])) for pv in (1, 2)]
-        return [HELPER_G, f] + calls
+        return [BOX, HELPER_G, f] + calls
     f = ("assign", "f", ("fn", [("p", "int")], "int", body + tail), None, ())
     calls = [("print", ("call", var("f"), [("int", pv)])) for pv in (0, 1, 2)]
-    return [HELPER_G, f] + calls
+    return [BOX, HELPER_G, f] + calls
